@@ -251,7 +251,7 @@ impl Sched {
     /// Lets one ready task make one step. Returns false if nothing is ready.
     pub async fn step(&self) -> bool {
         let w = {
-            let mut i = self.gate.inner.borrow_mut();
+            let i = self.gate.inner.borrow_mut();
             let n = i.ready.len();
             if n == 0 {
                 return false;
